@@ -1110,8 +1110,45 @@ def r16_the_stored_shared_flag_is_the_declarations_own(ctx, rule="C13.R16"):
                            "%s stores a SHARED flag that is computed (%s) instead of the flag of the declaration it files: a "
                            "variable becomes visible inside SUBs and FUNCTIONs because of something other than its own DIM SHARED "
                            "(e.g. a namesake of another type that is SHARED)" % (short, o[:90] or "several definitions"))
-    ctx.analysed_units(rule, constructions=n)
-    ctx.require(rule, 5)
+    # one level up: what the callers hand in for that parameter - the SHARED flag of the declaration (a field of that
+    # name), a constant, or a parameter of their own
+    takers = {}
+    for f in prog.fns.values():
+        if f.crate != "rusty_linter" or f.kind == "const":
+            continue
+        pv = None
+        for blk in f.body.blocks:
+            for s in blk["s"]:
+                if s["k"] == "assign" and s["r"]["k"] == "agg" and (s["r"].get("adt") or "").endswith("::VariableInfo"):
+                    a = prog.adt(s["r"]["adt"])
+                    idx = [i for i, x in enumerate(a["variants"][0]["fields"]) if x["name"] == "shared"][0]
+                    pv = pv or mir.Prov(f.body)
+                    o = mir.strip_all(pv.of_operand(s["r"]["ops"][idx]))
+                    if o[0] == "param":
+                        takers[f.id] = o[1]
+    m = 0
+    for f in sorted(prog.fns.values(), key=lambda x: x.id):
+        if f.crate != "rusty_linter" or f.kind == "const":
+            continue
+        pv = None
+        for _b, t in f.body.calls():
+            g = prog.fns.get(t.get("res") or mir.callee_of(t))
+            if g is None or g.id not in takers or takers[g.id] >= len(t["args"]):
+                continue
+            pv = pv or mir.Prov(f.body)
+            o = mir.show_origin(pv.of_operand(t["args"][takers[g.id]]))
+            m += 1
+            short = f.path.split("::", 1)[1]
+            key = "%s:caller:%s->%s" % (rule, re.sub(r"<impl .*?>::", "", short)[:70], g.name)
+            if re.fullmatch(r"true|false|arg\d+|[\w.*()& ]*\bshared\)*", o):
+                ctx.ok(rule, key, "%s:%s" % (f.file, t.get("ln")), "passes %s" % o)
+            elif o.startswith("_") or "(" in o:
+                ctx.violation(rule, key, "%s:%s" % (f.file, t.get("ln")),
+                              "%s hands %s a SHARED flag that is computed (%s) instead of the declaration's own flag" % (short, g.name, o[:80]))
+            else:
+                ctx.unknown(rule, key, "%s:%s" % (f.file, t.get("ln")), "the flag handed to %s is %s" % (g.name, o[:60]))
+    ctx.analysed_units(rule, constructions=n, call_sites=m)
+    ctx.require(rule, 7, max_unknown=2)
 
 
 def run(ctx):
